@@ -15,7 +15,7 @@ RULE = ("modules of set() commands with 0..5 values in every single-argument for
         "(name, type by value count, default as written, option note/help/default/bool). Non-trivial: a value list "
         "containing a quoted value with an escaped quote, an empty string, a bracket argument, a single character or "
         "an unquoted value ending in an escaped quote; distinct by SHA-1 of the case")
-RULE_MORE = "values ending in ':' / '::', class / member / test contexts around the set() and option() commands."
+RULE_MORE = "values ending in ':' / '::', class / member / test contexts around the set() and option() commands. Later: literal tabs, NFKC-unstable characters."
 ASSUMPTIONS = ["for a value containing a line break only the first line of the default is compared (the field is one line)",
                "for UNSET only the type field is constrained"]
 BUDGET = {"quick": {"shards": 8, "examples": 250}, "thorough": {"shards": 16, "examples": 4000}}
